@@ -101,6 +101,17 @@ class Ctx:
         if b is None:
             self.ob('anchor-missing:' + path, 'anchor', path, 'anchor function must exist', False,
                     'no body with def-path %s in crate (renamed/removed? update the rule table)' % path)
+            return b
+        # a function that became a one-line wrapper of a variant of itself (`open_inner(o, m)` -> `open_inner_in_version(o, m, None)`):
+        # the rules written for it apply to the body that now holds the code
+        for _ in range(3):
+            crate_calls = sorted(set(n for bi, t in b.calls() if bi in b.normal_blocks() for n in core.call_names(t) if n in self.F.bodies))
+            # (only prepositional variants: `x_in_version`, `x_with_options`, .. - `commit` calling `commit_changes` is not a wrapper of itself)
+            if len(crate_calls) == 1 and re.match(re.escape(b.path) + r'_(in|with|for|at|by|from|using)_\w+$', crate_calls[0]) and len(b.normal_blocks()) <= 6:
+                b = self.F.body(crate_calls[0])
+                self.delegated = getattr(self, 'delegated', []) + [(path, b.path)]
+            else:
+                break
         return b
 
     def ob(self, key, rule, fn, desc, ok, detail='', loc=None):
